@@ -21,7 +21,7 @@ CORPUS = os.path.join(vlib.ROOT, "corpus", "r")
 WORK = os.path.join(vlib.CACHE, "r-work")
 
 # model-only event codes (coq/R/Syntax.v)
-M_FREE_ACTOR, M_AMBIG, M_UAF, M_LIMBO, M_PREPHELD, M_DRAINLEFT = 1, 2, 3, 4, 5, 6
+M_FREE_ACTOR, M_AMBIG, M_UAF, M_LIMBO, M_PREPHELD, M_DRAINLEFT, M_CHILDCYCLE, M_DRAINSHORT = 1, 2, 3, 4, 5, 6, 7, 8
 
 # --------------------------------------------------------------------------------------------------
 # program text
@@ -255,6 +255,7 @@ class Gen:
         self.nclo = self.nh = self.na = self.nr = self.nf = self.nt = self.nv = 0
         self.handles = {}        # hid -> (kind, target); kind in own act anon ret ret0 fwd fwd0 tok
         self.stable = set()
+        self.root_of = {}        # actor id -> stable handle id
         self.vars = []           # (tk, v)
         self.t = 0               # last run instant (even)
         self.logger = logger
@@ -411,15 +412,35 @@ class Gen:
             out += self.init_calls(h, a, depth)
             if r.random() < 0.3:
                 out.append(("slablen",))
+            # often: end the child and look at the slab again later (ActorOwnSlab removes terminated children)
+            hp = self.root_of.get(ctx[1])
+            if r.random() < 0.6:
+                how = r.random()
+                end = [("stop",)] if how < 0.5 else [("fail", r.randrange(1, 99))]
+                out.append(("call", h, ("clo", self.fresh("nclo"), 0, 0, [], end)))
+                if hp is not None:
+                    look = ("call", hp, ("clo", self.fresh("nclo"), 0, 0, [], [("slablen",)]))
+                    out.append(r.choice([("defer", self.wrap_clo([look])), ("lazy", self.wrap_clo([look])), look]))
+                    self.st("slab_lifecycle")
             return out
         h = self.mk(scope, "own", a)
         if stable:
             self.stable.add(h)
+            self.root_of[a] = h
         return [("actor", h, a, n)] + self.init_calls(h, a, depth)
 
     def init_calls(self, h, a, depth):
+        out = self.init_calls0(h, a, depth)
+        # sometimes calls are made BEFORE the init step is queued: they are held in the Prep queue when it runs
+        if self.r.random() < 0.3:
+            pre = [("call", h, self.clo(("meth", a), depth + 1, [], caps=[], n=self.r.randrange(0, 2))) for _ in range(self.r.choice([1, 1, 2]))]
+            self.st("calls_before_init")
+            return pre + out
+        return out
+
+    def init_calls0(self, h, a, depth):
         r = self.r
-        style = r.choices(["imm", "multi", "fail", "never", "stop"], [6, 2, 1, 1.2, 0.6])[0]
+        style = r.choices(["imm", "multi", "fail", "never", "stop"], [6, 2, 1.2, 1.2, 0.8])[0]
         self.st("init_" + style)
         if style == "imm":
             return [("callprep", h, True, self.clo(("prep", a), depth + 1, [], caps=[]))]
@@ -427,10 +448,11 @@ class Gen:
             return []
         if style == "fail":
             c = self.clo(("prep", a), depth + 1, [], caps=[], nobody=True)
-            return [("callprep", h, r.random() < 0.3, c[:5] + ([("fail", r.randrange(1, 99))],))]
+            # (sometimes the failing step still returns Some(value): the failure wins, the value is dropped)
+            return [("callprep", h, r.random() < 0.4, c[:5] + ([("fail", r.randrange(1, 99))],))]
         if style == "stop":
             c = self.clo(("prep", a), depth + 1, [], caps=[], nobody=True)
-            return [("callprep", h, False, c[:5] + ([("stop",)],))]
+            return [("callprep", h, r.random() < 0.4, c[:5] + ([("stop",)],))]
         # multi-step: prep -> (direct / defer / timer) prep -> Some.  The inner steps address the actor through
         # a weak clone captured by the step that schedules them.
         steps = r.randrange(2, 4)
@@ -629,6 +651,58 @@ class Gen:
         self.st("vol_%d" % n)
         return ("rep", n, [(r.choice(["defer", "deferd", "lazy"]), inner)])
 
+    def chain(self, length):
+        """Closures c1..cL where dropping c_i un-run drops a token whose Drop defers c_(i+1) (F4 has L >= 100)."""
+        acts, hs = [], [self.fresh("nh") for _ in range(length)]
+        for i in range(length - 1, -1, -1):
+            t = self.fresh("nt")
+            nxt = [hs[i + 1]] if i + 1 < length else []
+            acts.append(("newtok", hs[i], t, [("clo", self.fresh("nclo"), 0, 0, nxt, [])]))
+        first = ("clo", self.fresh("nclo"), 0, 0, [hs[0]], [])
+        q = self.r.choices(["defer", "deferd", "lazy", "idle", "tadd"], [5, 2, 2, 1, 1])[0]
+        if q == "tadd":
+            v = self.fresh("nv")
+            acts.append(("tadd", "f", v, self.t + 100001, first))
+        else:
+            acts.append((q, first))
+        self.st("chain_%d" % length)
+        return acts
+
+    def scen_var_timer(self):
+        """A Max / Min timer whose closure carries a Ret (or a token), re-targeted, a run between the old and the new
+           expiry (the timer is re-queued inside the timer set), then deleted / queried / fired."""
+        r = self.r
+        k = r.choice(["x", "x", "n"])
+        v = self.fresh("nv")
+        t1 = self.t + r.randrange(1, 40) * 2 + 1
+        mid = t1 + r.randrange(0, 20) * 2 + 1            # even: a run instant
+        t2 = mid + r.randrange(0, 40) * 2 + 1
+        first, second = (t1, t2) if k == "x" else (t2 + 2 * r.randrange(0, 20), t2)   # Min: only earlier instants take effect
+        rid = self.fresh("nr")
+        h = self.fresh("nh")
+        carried = r.random()
+        if carried < 0.7:
+            acts = [("newret", h, rid, ("clos", [], []))]
+        else:
+            tk = self.fresh("nt")
+            acts = [("newtok", h, tk, [self.wrap_clo([])] if r.random() < 0.5 else [])]
+        acts.append(("tadd", k, v, first, ("clo", self.fresh("nclo"), 0, 0, [h], [])))
+        if r.random() < 0.85:
+            acts.append(("tupd", k, v, second))
+        out = [("do", acts), ("run", mid, False)]
+        self.t = mid
+        c = r.random()
+        if c < 0.6:
+            out.append(("do", [("tdel", k, v), ("tact", k, v)]))
+        elif c < 0.8:
+            out.append(("do", [("tact", k, v), ("tupd", k, v, self.t + r.randrange(0, 9) * 2 + 1), ("tdel", k, v), ("tdel", k, v)]))
+        else:
+            self.t = t2 + 2 * r.randrange(0, 30) + 1
+            out.append(("run", self.t, False))
+            out.append(("do", [("tdel", k, v)]))
+        self.st("scen_var_timer_" + k)
+        return out
+
     # ---- whole programs ----
     def program(self):
         r = self.r
@@ -650,6 +724,9 @@ class Gen:
         for _ in range(nseg):
             if self.budget <= 0:
                 break
+            if self.w["ret"] >= 3 and r.random() < 0.15:
+                prog += self.scen_var_timer()
+                continue
             prog.append(("do", self.acts("stk", 0, None)))
             for _ in range(r.choice([1, 1, 1, 2, 3])):
                 c = r.random()
@@ -668,6 +745,10 @@ class Gen:
             if self.logger and r.random() < 0.25:
                 prog.append(("setfilter", r.choice(LOG_FILTERS)))
         end = r.random()
+        if self.w["tok"] >= 2 and r.random() < 0.25:
+            # something left in the queues whose drops defer more: exercised by the drain rounds of Stakker::drop
+            prog.append(("do", self.chain(r.choice([1, 2, 3, 5, 12, 40, 97, 98]))))
+            end = 0.7 + 0.3 * r.random()
         if end < 0.6:
             # graceful: drop what we hold, run, then tear down
             prog.append(("dropall",))
@@ -759,6 +840,17 @@ def build_model():
     ok, out = vlib.coq_build(["R/Extract.vo"])
     if not ok:
         return False, None, out
+    # the extracted file must be at least as new as what it was extracted from (a mirrored tree gets the .vo files
+    # but not extracted/): re-run the extraction if it is missing or stale
+    ml = os.path.join(vlib.COQ, "extracted", "r_model.ml")
+    newest = max(os.path.getmtime(os.path.join(vlib.COQ, "R", f)) for f in os.listdir(os.path.join(vlib.COQ, "R")) if f.endswith(".vo"))
+    if not os.path.exists(ml) or os.path.getmtime(ml) < newest:
+        with vlib.Lock("coq"):
+            os.makedirs(os.path.join(vlib.COQ, "extracted"), exist_ok=True)
+            rc, o2 = vlib.run(["coqc", "-q", "-Q", ".", "Stk", "-w", "-notation-overridden", "R/Extract.v"], cwd=vlib.COQ, timeout=600)
+        out += o2
+        if rc != 0:
+            return False, None, out
     try:
         drv = vlib.ocaml_driver("r_driver", "r_model.ml", "r_driver.ml", extra=["r_monitors.ml"])
     except Exception as ex:
@@ -1181,6 +1273,7 @@ def make_fails(prop, binary, driver, kind, drop_log=False):
 def run(prop, tier, seed):
     ev = vlib.Evidence(prop, tier, seed, level="proof")
     t0 = time.time()
+    shutil.rmtree(os.path.join(vlib.OUT, "replay", prop), ignore_errors=True)
     problems = []          # things that break the tie / the proof (protocol: search, then no-input violation)
     ok_tr, tr_problems = vlib.translate()
     if not ok_tr:
